@@ -156,6 +156,11 @@ impl Shadow {
         None
     }
 
+    /// The live block whose text area (after the 16-byte header) starts at `addr`, whatever its size.
+    pub fn block_of_text(&self, addr: usize) -> Option<(usize, usize)> {
+        self.blocks.iter().enumerate().rev().find(|(_, b)| b.live && b.user + 16 == addr).map(|(i, b)| (i, b.size))
+    }
+
     pub fn live_blocks(&self) -> usize {
         self.blocks.iter().filter(|b| b.live).count()
     }
